@@ -238,6 +238,9 @@ pub struct Family {
     pub strategy: fn(Tier) -> BoxedStrategy<Value>,
     /// total number of cases over all shards
     pub cases: fn(Tier) -> u64,
+    /// enumerated family: the i-th case of a finite space (None past the end); such a family is
+    /// explored completely (every `stride`-th index in the quick tier) instead of sampled
+    pub enumerate: Option<fn(Tier, u64) -> Option<Value>>,
 }
 
 pub struct CheckDef {
@@ -476,6 +479,39 @@ pub fn run_shard(
     let my_variant = std::env::var("VCHECK_VARIANT").unwrap_or_default();
     'fam: for (fi, fam) in def.families.iter().enumerate() {
         if fam.variant != my_variant {
+            continue;
+        }
+        if let Some(en) = fam.enumerate {
+            let mut i = shard as u64;
+            let mut done = 0u64;
+            loop {
+                let Some(case) = en(tier, i) else { break };
+                i += nshards as u64;
+                done += 1;
+                let oc = exec_case(def, tier, &case);
+                if let Outcome::Done(rep) = &oc {
+                    out.absorb_report(fam.name, &case, rep);
+                } else {
+                    out.evaluations += 1;
+                    *out.family_cases.entry(fam.name.to_string()).or_insert(0) += 1;
+                }
+                match classify(def, known, &oc) {
+                    Class::Pass => {}
+                    Class::Known(v) => *out.known_hits.entry(v.signature).or_insert(0) += 1,
+                    Class::Foreign(v) => *out.foreign_hits.entry(format!("{}:{}", v.property, v.signature)).or_insert(0) += 1,
+                    Class::Inconclusive(s) => {
+                        out.inconclusive.push(format!("{} case #{}: {}", fam.name, i, s));
+                        if out.inconclusive.len() > 4 {
+                            break;
+                        }
+                    }
+                    Class::Own(v) => {
+                        out.failures.push(Failure { family: fam.name.to_string(), case, violation: v, shrink_iters: 0 });
+                        break;
+                    }
+                }
+            }
+            *out.labels.entry(format!("enumerated:{}", fam.name)).or_insert(0) += done;
             continue;
         }
         let total = (fam.cases)(tier);
